@@ -59,3 +59,36 @@ func ClientHelloCfg(cfg *tls.Config) []byte {
 	c1.Close()
 	return <-done
 }
+
+// PadHello appends a padding extension (type 21) to a crypto/tls ClientHello so
+// that the record body has exactly `body` bytes; ok is false when it cannot.
+func PadHello(h []byte, body int) ([]byte, bool) {
+	if len(h) < 5+4+2+32+1 {
+		return nil, false
+	}
+	cur := len(h) - 5
+	if body < cur+4 {
+		return nil, false
+	}
+	o := 5 + 4 + 2 + 32
+	o += 1 + int(h[o])
+	o += 2 + (int(h[o])<<8 | int(h[o+1]))
+	o += 1 + int(h[o])
+	if o+2 > len(h) {
+		return nil, false
+	}
+	extLen := int(h[o])<<8 | int(h[o+1])
+	if o+2+extLen != len(h) {
+		return nil, false
+	}
+	pad := body - cur - 4
+	out := append([]byte{}, h...)
+	out = append(out, 0, 21, byte(pad>>8), byte(pad))
+	out = append(out, make([]byte, pad)...)
+	newExt := extLen + 4 + pad
+	out[o], out[o+1] = byte(newExt>>8), byte(newExt)
+	hs := body - 4
+	out[6], out[7], out[8] = byte(hs>>16), byte(hs>>8), byte(hs)
+	out[3], out[4] = byte(body>>8), byte(body)
+	return out, true
+}
